@@ -67,7 +67,9 @@ func c17Sequences(x *runCtx) {
 		copyMv bool // Rename copies and removes
 	}
 	vars := []variant{{"aborted-then-retried-same-instance", 1, false}, {"aborted-then-retried-same-instance", 3, false},
-		{"rename-by-copy", -1, true}, {"aborted-then-retried-rename-by-copy", 2, true}}
+		{"rename-by-copy", -1, true}, {"aborted-then-retried-rename-by-copy", 2, true},
+		// abort == -2: no first session; the 6000-byte file and the file under test are two fdo.download transfers of one session
+		{"two-files-in-one-session", -2, false}, {"two-files-in-one-session-rename-by-copy", -2, true}}
 	for _, v := range vars {
 		for _, size := range sizes {
 			first := make([]byte, 6000)
@@ -144,8 +146,11 @@ func c17SeqRun(abort int, copyMv bool, first, file []byte) string {
 	st := lab.NewMemState()
 	w := lab.NewWorld(st)
 	w.Reuse = true
-	var cur serviceinfo.OwnerModule
+	var cur, before serviceinfo.OwnerModule
 	w.Modules = func(context.Context, []string) []lab.NamedModule {
+		if before != nil {
+			return []lab.NamedModule{{Name: "fdo.download", Mod: before}, {Name: "fdo.download", Mod: cur}}
+		}
 		return []lab.NamedModule{{Name: "fdo.download", Mod: cur}}
 	}
 	k := lab.KindByName("P-256")
@@ -172,9 +177,17 @@ func c17SeqRun(abort int, copyMv bool, first, file []byte) string {
 			return "" // the owner's failure did not fail the session: nothing was aborted, not this check's subject
 		}
 	}
+	if abort == -2 {
+		before = &fsim.DownloadContents[*bytes.Reader]{Name: "first.bin", Contents: bytes.NewReader(first), MustDownload: true}
+	}
 	cur = &c17AbortAfter{real: &fsim.DownloadContents[*bytes.Reader]{Name: "f.bin", Contents: bytes.NewReader(file), MustDownload: true}, after: -1}
 	if err := run(); err != nil {
 		return "to2-failed: " + err.Error()
+	}
+	if abort == -2 {
+		if got, err := os.ReadFile(filepath.Join(dest, "first.bin")); err != nil || !bytes.Equal(got, first) {
+			return fmt.Sprintf("missing: first.bin of the same session: %v (equal=%v)", err, bytes.Equal(got, first))
+		}
 	}
 	got, err := os.ReadFile(filepath.Join(dest, "f.bin"))
 	if err != nil {
